@@ -178,11 +178,14 @@ func gStrs(l []string) string {
 }
 
 func gRefs(l []uint64) string {
+	if len(l) == 0 {
+		return "(@nil N)"
+	}
 	it := make([]string, len(l))
 	for i, r := range l {
-		it[i] = gallina.N(r)
+		it[i] = fmt.Sprint(r)
 	}
-	return gallina.List(it)
+	return "(rl [" + strings.Join(it, "; ") + "]%uint63)"
 }
 
 type metaObs struct {
@@ -554,7 +557,7 @@ func (b memSlice) Range(start, end int) []byte { return b[start:end] }
 // ---------------------------------------------------------------- alterations
 
 type altRec struct {
-	File  int // -1 index, k segment
+	File  int // -1 series entry, -2 symbols/offset table/TOC (judged at open), -3 postings list, k >= 0 segment
 	Pos   int
 	Byte  byte
 	Ref   uint64
@@ -564,6 +567,9 @@ type altRec struct {
 	Part  string // "len" | "body" | "crc"
 	// ErrClass != "": the read of the target failed with this class (Obs is then redundant)
 	ErrClass string
+	Diff     uint64 // API groups that returned different data
+	Errs     uint64 // API groups that returned an error
+	DiffWhat string
 }
 
 // newByte picks the replacement value for variant v of position pos.
@@ -614,32 +620,52 @@ func part(pos, start, n, end int) string {
 	return "body"
 }
 
-// alterIndex alters one byte of the index, re-opens it and reads every series.
-// It returns the record for Coq (the series containing the byte) and a description of any
-// other series whose answer changed to different data (judged here).
-func alterIndex(rb *rawBlock, o *blockObs, pos int, nb byte, ref uint64) (altRec, string) {
+// alterIndex alters one byte of the index file of the block in dir (on disk), re-opens the block
+// with tsdb.OpenBlock and runs the whole read suite on it. kind: -1 the byte lies in the series
+// entry ref; -2 in the symbol table / offset table / TOC; -3 in the postings list sec.
+func alterIndex(dir string, rb *rawBlock, o *blockObs, pr *probes, baseline []probeAns, kind, pos int, nb byte, ref uint64, sec *section) altRec {
 	cp := append([]byte{}, rb.Index...)
 	cp[pos] = nb
-	a := altRec{File: -1, Pos: pos, Byte: nb, Ref: ref}
-	ir, err := index.NewReader(memSlice(cp), index.DecodePostingsRaw)
+	withIndex(dir, cp)
+	a := altRec{File: kind, Pos: pos, Byte: nb, Ref: ref}
+	ab, err := tsdb.OpenBlock(nil2logger(), dir, chunkenc.NewPool(), nil)
 	if err != nil {
 		a.Obs = "(AOpenErr " + classify(err) + ")"
 		a.IsErr = true
-		return a, ""
-	}
-	collateral := ""
-	for _, s := range o.Series {
-		res := readSeries(ir, s.Ref)
-		if s.Ref == ref {
-			a.Obs = "(ASeries " + res.gallina() + ")"
-			a.IsErr = res.Err != ""
-			a.ErrClass = res.Err
-			a.Same = res.equal(s.Res)
-		} else if res.Err == "" && !res.equal(s.Res) {
-			collateral = fmt.Sprintf("index byte %d of series %d altered: series %d now reads different data", pos, ref, s.Ref)
+		if kind == -2 {
+			a.ErrClass = classify(err)
 		}
+		return a
 	}
-	return a, collateral
+	defer ab.Close()
+	a.Diff, a.Errs, a.DiffWhat = compare(ab, o, pr, baseline)
+	ir, err := ab.Index()
+	if err != nil {
+		panic(err)
+	}
+	defer ir.Close()
+	switch kind {
+	case -1:
+		res := readSeries(ir, ref)
+		a.Obs = "(ASeries " + res.gallina() + ")"
+		a.IsErr = res.Err != ""
+		a.ErrClass = res.Err
+		for _, s := range o.Series {
+			if s.Ref == ref {
+				a.Same = res.equal(s.Res)
+			}
+		}
+	case -2:
+		a.Obs = "AOpenOk"
+		a.Same = a.Diff == 0
+	default:
+		res := refsAns(ir.Postings(context.Background(), sec.N, sec.V))
+		a.IsErr = res.Err != ""
+		a.ErrClass = res.Err
+		a.Obs = "(APostings " + gRes(res, false) + ")"
+		a.Same = a.Diff == 0
+	}
+	return a
 }
 
 func alterChunk(rb *rawBlock, o *blockObs, seg, pos int, nb byte, ref uint64) (altRec, string) {
@@ -678,12 +704,18 @@ func alterChunk(rb *rawBlock, o *blockObs, seg, pos int, nb byte, ref uint64) (a
 }
 
 func (a altRec) gallina() string {
-	// the usual outcome (an error) in the compact form of corr/CorrC24.v: primitive integers
-	if a.ErrClass != "" {
-		if a.File < 0 {
+	// the usual outcome (an error, no API returned different data) in the compact forms of
+	// corr/CorrC24.v: primitive integers
+	if a.ErrClass != "" && a.Diff == 0 {
+		switch {
+		case a.File == -1:
 			return fmt.Sprintf("ia %d %d %d %s", a.Pos, a.Byte, a.Ref, a.ErrClass)
+		case a.File == -2:
+			return fmt.Sprintf("oa %d %d %s", a.Pos, a.Byte, a.ErrClass)
+		case a.File == -3:
+			return fmt.Sprintf("pa %d %d %d %s", a.Pos, a.Byte, a.Ref, a.ErrClass)
 		}
 		return fmt.Sprintf("ca %d %d %d %d %s", a.File, a.Pos, a.Byte, a.Ref, a.ErrClass)
 	}
-	return fmt.Sprintf("mkAlt %s %s %s %s %s", gallina.Z(int64(a.File)), gallina.N(uint64(a.Pos)), gallina.N(uint64(a.Byte)), gallina.N(a.Ref), a.Obs)
+	return fmt.Sprintf("mkAlt %s %s %s %s %s %s", gallina.Z(int64(a.File)), gallina.N(uint64(a.Pos)), gallina.N(uint64(a.Byte)), gallina.N(a.Ref), a.Obs, gallina.N(a.Diff))
 }
